@@ -1,7 +1,7 @@
 (** C02 — panic-freedom lemmas for Model/Panics.v and for the composed request path. *)
 From Coq Require Import ZifyBool ZifyNat ZifyN.
 From KV Require Import Bytes RustInt RustStd RustStdProofs Panics.
-From KV Require PathSan PathSanProofs Range RangeProofs RangeConn RangeConnProofs Http1Read Hosts HostsProofs Negotiate Cors CacheControl Limiter LimiterProofs.
+From KV Require PathSan PathSanProofs Range RangeProofs RangeConn RangeConnProofs Http1Read Hosts HostsProofs Negotiate NegotiateProofs Cors CacheControl Limiter LimiterProofs.
 Open Scope N_scope.
 
 (** * [binary_search_by] stays inside the slice *)
@@ -703,4 +703,99 @@ Proof.
   destruct (parse_u32 _) as [i|]; [|discriminate].
   destruct (last =? 115); [|destruct (last =? 109); [|destruct (last =? 104); [|destruct (last =? 100); [|discriminate]]]];
     destruct (_ <=? u32_max); discriminate.
+Qed.
+
+(** * The answer to a weighted [accept-encoding] list (component c02.ae) *)
+
+(** Whatever [f32::from_str] makes of the weight texts ([parse_q] is arbitrary: "nan", "inf", "1e400", "-0" ... fall in one of the
+    three classes the code tests for), a page is answered with the 406 page exactly when identity is refused and nothing else
+    applies, else with its own status and the name of identity or of a coding the list names with a weight that is not zero —
+    and a page under the 50-byte floor only ever as identity. *)
+Lemma ae_answer_cases parse_q status big ae :
+  let values := Negotiate.header_values parse_q ae in
+  (ae_answer parse_q status big ae = (406, Some Negotiate.s_identity) /\ Negotiate.disable_identity values = true)
+  \/ (ae_answer parse_q status big ae = (status, Some Negotiate.s_identity) /\ Negotiate.disable_identity values = false)
+  \/ (exists a, ae_answer parse_q status big ae = (status, Some (Negotiate.alg_name a)) /\ big = true /\
+                Negotiate.contains values (Negotiate.alg_name a) = true).
+Proof.
+  intros values. unfold ae_answer.
+  destruct (NegotiateProofs.clone_cases parse_q Negotiate.parse_mime_std Negotiate.enc_tag (ae_page big) ae ae_options)
+    as [[_ [Hd E]]|[[_ [Hd E]]|[a [Hc [_ [Hch E]]]]]]; rewrite E; cbn [fst].
+  - right. left. split; [|exact Hd]. destruct big; reflexivity.
+  - left. split; [reflexivity|exact Hd].
+  - right. right. exists a. apply NegotiateProofs.choose_alg in Hch as [_ Hin].
+    destruct big; [|discriminate Hc]. split; [|split; [reflexivity|exact Hin]].
+    destruct a; reflexivity.
+Qed.
+
+(** * Ordering client-controlled weights with [partial_cmp(..).unwrap()] (a variant the code does not contain) *)
+
+Definition weight_is_nan {A} (x : A * fweight) : Prop := snd x = FNan.
+
+Lemma partial_cmp_nan_r a : partial_cmp a FNan = None.
+Proof. destruct a; reflexivity. Qed.
+
+Lemma insert_weight_ok {A} (x : A * fweight) : forall l,
+  ~ weight_is_nan x -> Forall (fun y => ~ weight_is_nan y) l ->
+  exists l', insert_weight x l = Ok l' /\ length l' = S (length l) /\ Forall (fun y => ~ weight_is_nan y) l'.
+Proof.
+  intros l Hx. induction l as [|y r IH]; intros Hl.
+  - exists [x]. repeat split. constructor; [exact Hx|constructor].
+  - inversion Hl as [|y' r' Hy Hr]; subst. cbn [insert_weight].
+    unfold weight_is_nan in Hx, Hy. destruct (snd y) as [|vy] eqn:Ey; [contradiction|]. destruct (snd x) as [|vx] eqn:Ex; [contradiction|].
+    cbn [partial_cmp].
+    assert (Hny : ~ weight_is_nan y) by (unfold weight_is_nan; rewrite Ey; discriminate).
+    assert (Hnx : ~ weight_is_nan x) by (unfold weight_is_nan; rewrite Ex; discriminate).
+    destruct (IH Hr) as (l' & E & Hlen & Hall).
+    destruct (vy ?= vx)%Z.
+    + exists (x :: y :: r). repeat split. constructor; [exact Hnx|constructor; assumption].
+    + exists (x :: y :: r). repeat split. constructor; [exact Hnx|constructor; assumption].
+    + rewrite E. cbn [obind]. exists (y :: l'). repeat split; [cbn [length]; lia|constructor; assumption].
+Qed.
+
+(** without a NaN the sort returns (and keeps the number of members) *)
+Lemma sort_weights_ok {A} : forall l : list (A * fweight),
+  Forall (fun y => ~ weight_is_nan y) l ->
+  exists l', sort_weights l = Ok l' /\ length l' = length l /\ Forall (fun y => ~ weight_is_nan y) l'.
+Proof.
+  induction l as [|x r IH]; intros Hl.
+  - exists []. repeat split. constructor.
+  - inversion Hl as [|x' r' Hx Hr]; subst. destruct (IH Hr) as (r1 & E & Hlen & Hall).
+    cbn [sort_weights]. rewrite E. cbn [obind].
+    destruct (insert_weight_ok x r1 Hx Hall) as (l' & E' & Hlen' & Hall').
+    exists l'. repeat split; [exact E'|cbn [length]; lia|exact Hall'].
+Qed.
+
+(** with one, and a second member to compare it with, the [unwrap] fails *)
+Lemma sort_weights_nan_panics {A} : forall l : list (A * fweight),
+  (2 <= length l)%nat -> Exists weight_is_nan l -> sort_weights l = Panic.
+Proof.
+  induction l as [|x r IH]; intros Hlen Hex; [cbn in Hlen; lia|].
+  cbn [sort_weights].
+  destruct (Exists_dec weight_is_nan r) as [Hr|Hr].
+  { intros y. unfold weight_is_nan. destruct (snd y); [left; reflexivity|right; discriminate]. }
+  - (* a NaN in the rest *)
+    destruct r as [|y [|z r2]]; [inversion Hr| |].
+    + (* the rest is that single member *)
+      cbn [sort_weights insert_weight obind]. inversion Hr as [? ? Hy|? ? Hy]; [|inversion Hy]. subst.
+      unfold weight_is_nan in Hy. rewrite Hy. reflexivity.
+    + rewrite IH; [reflexivity|cbn [length]; lia|exact Hr].
+  - (* the NaN is the new member; the sorted rest is not empty *)
+    inversion Hex as [? ? Hx|? ? Hx']; subst; [|contradiction].
+    assert (Hall : Forall (fun y => ~ weight_is_nan y) r) by (apply Forall_Exists_neg; exact Hr).
+    destruct (sort_weights_ok r Hall) as (r1 & E & Hl1 & _). rewrite E. cbn [obind].
+    destruct r1 as [|y r1]; [cbn [length] in *; lia|].
+    cbn [insert_weight]. unfold weight_is_nan in Hx. rewrite Hx, partial_cmp_nan_r. reflexivity.
+Qed.
+
+Lemma weight_order_variant A (l : list (A * fweight)) :
+  sort_weights l = Panic <-> (2 <= length l)%nat /\ Exists weight_is_nan l.
+Proof.
+  split.
+  - intros HP. destruct (Exists_dec weight_is_nan l) as [Hex|Hno].
+    { intros y. unfold weight_is_nan. destruct (snd y); [left; reflexivity|right; discriminate]. }
+    + split; [|exact Hex]. destruct l as [|x [|y r]]; [discriminate HP| |cbn [length]; lia].
+      cbn in HP. discriminate HP.
+    + apply Forall_Exists_neg in Hno. destruct (sort_weights_ok l Hno) as (l' & E & _). congruence.
+  - intros [Hlen Hex]. apply sort_weights_nan_panics; assumption.
 Qed.
